@@ -15,6 +15,10 @@ class InjectedFault(Exception):
     """environment fault injected at a symbolic crash point"""
 
 
+class InjectedArithFault(InjectedFault, FloatingPointError):
+    """the failing step fails with an arithmetic error (FloatingPointError: an ArithmeticError) -- still a failure of the step"""
+
+
 class InjectedInterrupt(KeyboardInterrupt):
     """the run is interrupted (Ctrl-C / SIGTERM handler) at a symbolic crash point: a BaseException that is not an Exception"""
 
@@ -71,6 +75,7 @@ class World:
         self.fault_site2 = None
         self.fault_interrupt = None   # optional symbolic Bool: the (first) fault is an interrupt rather than an Exception
         self.fault_kind = None
+        self.fault_arith = None       # optional symbolic Bool: the (first) fault is an ArithmeticError subclass
         self.streams = {}          # rng key -> list of draws
         self.global_random_touched = []
         self.sites = []
@@ -88,6 +93,9 @@ class World:
                     if self.fault_interrupt is not None and core.decide(self.fault_interrupt):
                         self.fault_kind = "interrupt"
                         raise InjectedInterrupt("%s#%d" % (site, c))
+                    if self.fault_arith is not None and core.decide(self.fault_arith):
+                        self.fault_kind = "arith"
+                        raise InjectedArithFault("%s#%d" % (site, c))
                     self.fault_kind = "exception"
                     raise InjectedFault("%s#%d" % (site, c))
             elif getattr(self, "fault_at2", None) is not None and self.fault_site2 is None:
@@ -567,13 +575,15 @@ class SymRng:
         return symnp.SymArray(symnp._obj(cells), symnp._F8)
 
     def choice(self, a, size=None, replace=True, **kw):
-        if replace:
-            raise UnsupportedByShim("choice with replacement")
         n = a if not isinstance(a, symnp.SymArray) else len(a)
         n = int(n)
+        if size is None or isinstance(size, tuple):
+            raise UnsupportedByShim("choice without a 1-d size")
         k = int(size)
-        if k > n:
+        if k > n and not replace:
             raise ValueError("Cannot take a larger sample than population when replace is False")
+        if replace and n == 0 and k > 0:
+            raise ValueError("a cannot be empty unless no samples are taken")
         z3 = core.z3
         cells = []
         for j in range(k):
@@ -582,9 +592,9 @@ class SymRng:
             self.pos += 1
             core.Ctx.cur.add_side(z3.And(c.e >= 0, c.e < n))
             cells.append(c)
-        if k > 1:
-            core.Ctx.cur.add_side(z3.Distinct(*[c.e for c in cells]))
-        self.draws.append(("choice", n, k, cells))
+        if k > 1 and not replace:
+            core.Ctx.cur.add_side(z3.Distinct(*[c.e for c in cells]))          # with replacement: independent draws, repeats possible
+        self.draws.append(("choice", n, k, cells, bool(replace)))
         return symnp.SymArray(symnp._obj(cells), symnp._I8)
 
     def integers(self, low, high=None, size=None, dtype=None, endpoint=False):
